@@ -207,6 +207,9 @@ Step ==
                     \cup UNION {E(t \in lp, "C04.LostWhileWaiting") : t \in wt}
                     \cup UNION {E(t \in wt, "C04.PoolGhost") : t \in lp}
                     \cup UNION {E(where[t] \notin {"sched", "granted", "raised"}, "C04.LeftBehind") : t \in Uids}
+                    \* ... in particular not because somebody else was canceled
+                    \cup UNION {E(where[t] \notin {"sched", "granted", "raised"} \/ named = {} \/ t \in named,
+                                  "C08.BystanderLost") : t \in Uids}
                     \* a named task does not stay in the pool once the request was handled
                     \cup (IF e.cancel_drained THEN UNION {E(t \notin namedc, "C08.NamedStillWaiting") : t \in lp} ELSE {})
                     \cup (IF T.scattered /\ e.quiet THEN
